@@ -22,9 +22,10 @@
 From Irismod Require Export Base.Prelude.
 
 Definition two64 : Z := 18446744073709551616.
-(** Go's unchecked [supply - 1] on a uint64: wraps to 2^64-1 at zero (the counter itself is
-    assumed never to reach 2^64, see [nk_mint]) *)
-Definition udec (a : Z) : Z := if a =? 0 then two64 - 1 else a - 1.
+(** Go's unchecked [supply + 1] / [supply - 1] on the uint64 counter of the x/nft keeper
+    (incrTotalSupply / decrTotalSupply): both wrap *)
+Definition uinc (a : Z) : Z := (a + 1) mod two64.
+Definition udec (a : Z) : Z := (a - 1) mod two64.
 
 Definition getz {K} `{EqDec K} (k : K) (m : amap K Z) : Z :=
   match get k m with Some v => v | None => 0 end.
@@ -87,14 +88,14 @@ Definition delete_owner (c : cid) (t : tid) (o : option addr) (s : state) : stat
              (match o with Some a => idx_del (a, c, t) (index s) | None => index s end).
 
 (** Mint: class must exist, id must be free; setNFT, setOwner, incrTotalSupply ([supply + 1],
-    unchecked in Go: modelled without wrap-around, i.e. fewer than 2^64 tokens per class) *)
+    unchecked in Go: modelled with the wrap-around at 2^64) *)
 Definition nk_mint (c : cid) (t : tid) (m : tmeta) (a : addr) (s : state) : option state :=
   if negb (has_class s c) then None
   else if has_nft s c t then None
   else
     let s1 := with_nfts s (set (c, t) m (nfts s)) in
     let s2 := set_owner c t a s1 in
-    Some (with_supply s2 (set c (total_supply s2 c + 1) (supply s2))).
+    Some (with_supply s2 (set c (uinc (total_supply s2 c)) (supply s2))).
 
 (** Burn: class and NFT must exist; delete the NFT, deleteOwner(GetOwner), decrTotalSupply *)
 Definition nk_burn (c : cid) (t : tid) (s : state) : option state :=
@@ -196,9 +197,11 @@ Definition edit (s : state) (a : addr) (c : cid) (t : tid) (name uri uri_hash da
     end
   else None.
 
-(** MsgTransferNFT.ValidateBasic (no URI length check) + msgServer.TransferNFT + TransferOwnership *)
+(** MsgTransferNFT.ValidateBasic (with the URI length check added by
+    "fix: nft MsgTransferNFT validates the token URI length": before it a transfer could store an
+    over-long URI, which genesis validation rejects) + msgServer.TransferNFT + TransferOwnership *)
 Definition transfer (s : state) (a : addr) (c : cid) (t : tid) (name uri uri_hash data : Z) (r : addr) : option state :=
-  if denom_ok c && addr_ok a && addr_ok r && json_or_empty_or_dnm data && token_ok t then
+  if denom_ok c && addr_ok a && addr_ok r && uri_ok uri && json_or_empty_or_dnm data && token_ok t then
     match get (c, t) (nfts s) with
     | None => None
     | Some m =>
